@@ -812,9 +812,14 @@ pub fn parse_query(iter: &mut Iter<'_>) -> Query {
         }
         Some(Token::Ident(ref s)) if s == "search" => {
             iter.next();
-            if let Some(Token::Ident(ref s)) = iter.peek().cloned() {
-                return Query::Search(s.clone());
-            }
+            return match iter.peek().cloned() {
+                Some(Token::Ident(ref s)) | Some(Token::Quote(ref s)) => Query::Search(s.clone()),
+                Some(x) => Query::Error(format!(
+                    "Expected a name to search for, got {}",
+                    describe(&x)
+                )),
+                None => Query::Error("Expected a name to search for".to_owned()),
+            };
         }
         _ => (),
     }
